@@ -133,6 +133,9 @@ pub(crate) fn add_str_get<W, R, T>(
             let s = to_primitive!(a0, String);
             let i = to_primitive!(a1, Int);
             let Some(i) = if i.is_negative() { Cow::Owned(i + s.len()) } else { Cow::Borrowed(i) }.to_usize() else { xraise!(Err(ManagedXError::new("index too large",rt)?)) };
+            if i >= s.len() {
+                return xerr(ManagedXError::new("index out of bounds", rt)?);
+            }
             Ok(ManagedXValue::new(XValue::String(Box::new(s.substring(i, Some(i + 1)))), rt)?.into())
         }),
     )
@@ -164,10 +167,19 @@ pub(crate) fn add_str_find<W, R, T>(
                     Some(i) => i,
                 },
             };
+            if start_ind > string.len() {
+                return xerr(ManagedXError::new("index out of bounds", rt)?);
+            }
             let haystack = string.substr(start_ind, None);
+            let start_byte = string.bytes() - haystack.len();
             let found_idx = haystack
                 .find(needle.as_str())
-                .map(|i| ManagedXValue::new(XValue::Int((i + start_ind).into()), rt.clone()))
+                .map(|i| {
+                    ManagedXValue::new(
+                        XValue::Int(string.char_idx_of_byte(i + start_byte).into()),
+                        rt.clone(),
+                    )
+                })
                 .transpose()?;
             Ok(manage_native!(XOptional { value: found_idx }, rt))
         }),
@@ -203,7 +215,9 @@ pub(crate) fn add_str_rfind<W, R, T>(
             let haystack = string.substr(0, end_ind);
             let found_idx = haystack
                 .rfind(needle.as_str())
-                .map(|i| ManagedXValue::new(XValue::Int(i.into()), rt.clone()))
+                .map(|i| {
+                    ManagedXValue::new(XValue::Int(string.char_idx_of_byte(i).into()), rt.clone())
+                })
                 .transpose()?;
             Ok(manage_native!(XOptional { value: found_idx }, rt))
         }),
@@ -225,7 +239,7 @@ pub(crate) fn add_str_substring<W, R, T>(
             let raw_end = to_primitive!(a2, Int);
             let raw_end = if raw_end.is_negative() { Cow::Owned(raw_end + string.len()) } else { Cow::Borrowed(raw_end) };
             let Some(end) = raw_end.to_usize() else { return xerr(ManagedXError::new("index out of bounds", rt)?); };
-            if end < start { return xerr(ManagedXError::new("index out of bounds", rt)?); }
+            if end < start || end > string.len() { return xerr(ManagedXError::new("index out of bounds", rt)?); }
             if start == 0 && end == string.len(){
                 return Ok(a0.into());
             }
@@ -314,12 +328,15 @@ pub(crate) fn add_str_format_replace<W, R, T>(
             let replacement_func = to_primitive!(a1, Function);
 
             let mut ret = FencedString::default();
+            // all offsets below are byte offsets into the template
             let mut prev_end = 0;
             for m in RE.find_iter(pat.as_str()) {
                 let end = m.start();
-                ret.push(&pat.substring(prev_end, Some(end)));
+                ret.push(&FencedString::from_str(&pat.as_str()[prev_end..end]));
                 let substr = ManagedXValue::new(
-                    XValue::String(Box::new(pat.substring(m.start() + 1, Some(m.end())))),
+                    XValue::String(Box::new(FencedString::from_str(
+                        &pat.as_str()[m.start() + 1..m.end()],
+                    ))),
                     rt.clone(),
                 )?;
                 let replacement = xraise!(ns
@@ -327,9 +344,9 @@ pub(crate) fn add_str_format_replace<W, R, T>(
                     .unwrap_value());
                 let repl_str = to_primitive!(replacement, String);
                 ret.push(repl_str.as_ref());
-                prev_end = end + 2;
+                prev_end = m.end();
             }
-            ret.push(&pat.substring(prev_end, None));
+            ret.push(&FencedString::from_str(&pat.as_str()[prev_end..]));
             Ok(ManagedXValue::new(XValue::String(Box::new(ret)), rt)?.into())
         }),
     )
